@@ -325,6 +325,10 @@ fn cache_data_case(cx: &mut Cx, dir: &Path) {
                     _ => rng.gen_range(0..expiry.max(2) - 1) / 2,
                 };
                 b.last_seen = if rng.gen_bool(0.04) { SystemTime::now() + Duration::from_secs(rng.gen_range(5..5000)) } else { SystemTime::now() - Duration::from_secs(age) };
+                if rng.gen_bool(0.12) {
+                    // expired by a fraction of a second only
+                    b.last_seen = SystemTime::now() - Duration::from_secs(expiry) - Duration::from_millis(rng.gen_range(150..850));
+                }
                 v.push(b);
             }
             if !v.is_empty() {
@@ -357,6 +361,7 @@ fn cache_data_case(cx: &mut Cx, dir: &Path) {
     // clean-up
     let mut cleaned = merged.clone();
     cx.eval();
+    let t_before_cleanup = SystemTime::now();
     if catch(|| cleaned.perform_cleanup(&cfg)).is_err() {
         cx.violation("panic", format!("CacheData::perform_cleanup panicked: {}", crate::last_panic()), json!({"expiry_s": expiry}));
         return;
@@ -375,8 +380,10 @@ fn cache_data_case(cx: &mut Cx, dir: &Path) {
             if x.failure_count > x.success_count {
                 cx.violation("unreliable-address-after-cleanup", format!("{} kept with failures {} > successes {}", x.addr, x.failure_count, x.success_count), json!({}));
             }
-            match now.duration_since(x.last_seen) {
-                Ok(age) if age.as_secs() > expiry + 1 => cx.violation("expired-address-after-cleanup", format!("{} kept although last seen {}s ago (expiry {expiry}s)", x.addr, age.as_secs()), json!({})),
+            // an address that had already outlived the expiry when the clean-up started (no margin needed: its age
+            // only grows until the clean-up looks at it)
+            match t_before_cleanup.duration_since(x.last_seen) {
+                Ok(age) if age >= Duration::from_secs(expiry) => cx.violation("expired-address-after-cleanup", format!("{} kept although last seen {:.3}s before the clean-up started (expiry {expiry}s)", x.addr, age.as_secs_f64()), json!({})),
                 _ => {}
             }
         }
